@@ -22,6 +22,23 @@ class Unsupported(Exception):
     pass
 
 
+def _subst(e: ast.AST, local):
+    """Replace the locals that stand for a non-boolean expression (``d = ds[0]``) by that expression."""
+    import copy
+
+    aliases = {k: v for k, v in local.items() if isinstance(v, ast.AST)}
+    if not aliases or not any(isinstance(n, ast.Name) and n.id in aliases for n in ast.walk(e)):
+        return e
+
+    class R(ast.NodeTransformer):
+        def visit_Name(self, n):  # noqa: N802
+            if isinstance(n.ctx, ast.Load) and n.id in aliases:
+                return copy.deepcopy(aliases[n.id])
+            return n
+
+    return R().visit(copy.deepcopy(e))
+
+
 def _atom(e: ast.AST, atoms: dict[str, str]):
     if isinstance(e, ast.Constant) and isinstance(e.value, (int, float)) and not isinstance(e.value, bool):
         return ("const", e.value)
@@ -34,9 +51,10 @@ def _atom(e: ast.AST, atoms: dict[str, str]):
 
 
 def _eval(e: ast.AST, atoms, env, local):
+    e = _subst(e, local)
     if isinstance(e, ast.Constant) and isinstance(e.value, bool):
         return e.value
-    if isinstance(e, ast.Name) and e.id in local:
+    if isinstance(e, ast.Name) and e.id in local and not isinstance(local[e.id], ast.AST):
         return local[e.id]
     if isinstance(e, ast.UnaryOp) and isinstance(e.op, ast.Not):
         return not _truth(e.operand, atoms, env, local)
@@ -77,7 +95,7 @@ def _truth(e, atoms, env, local):
         return bool(_eval(e, atoms, env, local))
     except Unsupported:
         # truthiness of a bare atom: non-zero
-        return _val(e, atoms, env) != 0
+        return _val(_subst(e, local), atoms, env) != 0
 
 
 def _run(stmts, atoms, env, local):
@@ -96,7 +114,10 @@ def _run(stmts, atoms, env, local):
                 return r
             continue
         if isinstance(s, ast.Assign) and len(s.targets) == 1 and isinstance(s.targets[0], ast.Name):
-            local[s.targets[0].id] = _eval(s.value, atoms, env, local)
+            try:
+                local[s.targets[0].id] = _eval(s.value, atoms, env, local)
+            except Unsupported:
+                local[s.targets[0].id] = _subst(s.value, local)  # an alias of a non-boolean expression
             continue
         raise Unsupported(f"statement `{ast.unparse(s)[:60]}`")
     return None
